@@ -195,6 +195,25 @@ def unread_functions(ctx, where):
         return []
 
 
+def row_integrity(chk, rule, finfo, binding, key):
+    """Rows read into a 2-D array and split into columns afterwards: what was done to the array in between must
+    keep each row together.  np.sort(M, axis=0) sorts every column on its own; np.sort(M) (last axis) sorts
+    inside each row; np.unique(M) flattens."""
+    for fn, axis, call in getattr(binding, "transforms", []) or []:
+        w = where_of(finfo, call)
+        if fn == "sort":
+            what = "each column is sorted on its own" if axis in ("0", "-2") else "the values inside each row are sorted"
+            chk.ob(rule, False, w, "%s: %s, so a value is no longer in the row it was read in" % (__import__("ast").unparse(call)[:70], what),
+                   "rows of the query stay together (order them in SQL, or index the array with argsort of one column)",
+                   key=key, why="the columns are used as parallel arrays: element k of one belongs with element k of the other")
+        elif fn == "unique" and axis is None:
+            chk.ob(rule, False, w, "np.unique without axis flattens the rows", "rows of the query stay together", key=key)
+        elif fn in ("flipud", "ascontiguousarray") or (fn == "flip" and axis in ("0", "-2")):
+            chk.ob(rule, True, w, "%s keeps rows together" % fn, "rows of the query stay together", key=key)
+        else:
+            chk.indeterminate(rule, w, "what %s does to the rows is not read" % __import__("ast").unparse(call)[:60])
+
+
 def load_known_findings():
     if not os.path.exists(KNOWN_FINDINGS):
         return {"open": [], "fixed": []}
